@@ -55,16 +55,23 @@ func setup() error {
 var pieces = []string{"Hello", "fi", "ffl", "AVATAR", "To Wa", "0123456789", "54321", "24680", "11111", "x", " ", "  ", "(a)", "é", "Ünï", "q̣", "x̂́", "é", "αβγ", "Жук", "—", "“q”", "%&$", "Tj", "Ty.", "office", " ", "€", "ﬁ", "W", "iiii", "MMMM", "a-b", "T​z",
 	// every printable ASCII character: more than 92 distinct glyphs of one font in a document (the subsetter hands out the
 	// two-byte codes in order of first appearance, so the codes reach 0x5C, the backslash, and beyond)
-	" !\"#$%&'()*+,-./0123456789:;<=>?@ABCDEFGHIJKLMNOPQRSTUVWXYZ[\\]^_`abcdefghijklmnopqrstuvwxyz{|}~",
-	// characters beyond the BMP that the fonts have glyphs for (mathematical italic in DejaVu Serif, regional indicators
-	// in EB Garamond): their ToUnicode entries are UTF-16 surrogate pairs (seed C18-7)
-	"x\U0001D434y", "\U0001D434\U0001D435\U0001D436", "\U0001D7E1", "\U0001F1E6", "a\U0001F1E7"}
+	" !\"#$%&'()*+,-./0123456789:;<=>?@ABCDEFGHIJKLMNOPQRSTUVWXYZ[\\]^_`abcdefghijklmnopqrstuvwxyz{|}~"}
 
-func genText(t *rapid.T, label string, max int) string {
+// characters beyond the BMP that the font has glyphs for (mathematical italic in DejaVu Serif, regional indicators in EB
+// Garamond): their ToUnicode entries are UTF-16 surrogate pairs (seed C18-7). Per font: a character the font lacks is laid
+// out as .notdef, which is not a character of the text and is left out of the generated domain.
+var astral = [2][]string{{"x\U0001D434y", "\U0001D434\U0001D435\U0001D436", "\U0001D7E1"}, {"\U0001F1E6", "a\U0001F1E7", "\U0001F1E6 x"}}
+
+func genText(t *rapid.T, label string, max, font int) string {
 	n := rapid.IntRange(1, max).Draw(t, label+"n")
 	var sb strings.Builder
 	for i := 0; i < n; i++ {
-		sb.WriteString(pieces[rapid.IntRange(0, len(pieces)-1).Draw(t, label)])
+		k := rapid.IntRange(0, len(pieces)+len(astral[font])-1).Draw(t, label)
+		if k >= len(pieces) {
+			sb.WriteString(astral[font][k-len(pieces)])
+			continue
+		}
+		sb.WriteString(pieces[k])
 	}
 	return sb.String()
 }
@@ -134,7 +141,8 @@ type PCase struct {
 }
 
 func genP(t *rapid.T) PCase {
-	return PCase{Font: rapid.IntRange(0, 1).Draw(t, "font"), Size: float64(rapid.IntRange(4, 40).Draw(t, "size")), Text: genText(t, "piece", 5)}
+	font := rapid.IntRange(0, 1).Draw(t, "font")
+	return PCase{Font: font, Size: float64(rapid.IntRange(4, 40).Draw(t, "size")), Text: genText(t, "piece", 5, font)}
 }
 
 func (c PCase) face() *canvas.FontFace {
@@ -451,7 +459,8 @@ func genT(t *rapid.T) TCase {
 	var c TCase
 	n := rapid.IntRange(1, 3).Draw(t, "nruns")
 	for i := 0; i < n; i++ {
-		c.Runs = append(c.Runs, TRun{Font: rapid.IntRange(0, 1).Draw(t, "font"), Size: float64(rapid.IntRange(6, 24).Draw(t, "size")), Text: genText(t, "piece", 6)})
+		font := rapid.IntRange(0, 1).Draw(t, "font")
+		c.Runs = append(c.Runs, TRun{Font: font, Size: float64(rapid.IntRange(6, 24).Draw(t, "size")), Text: genText(t, "piece", 6, font)})
 	}
 	if rapid.Bool().Draw(t, "box") {
 		c.Width = float64(rapid.IntRange(4, 16).Draw(t, "width")) * 10
